@@ -18,6 +18,7 @@ import (
 )
 
 type SpecEnv struct {
+	inIfaceFacts bool // evaluating the assumed contract of an interface method application
 	fc       *fnCtx
 	st       *State
 	old      *State
@@ -145,6 +146,13 @@ func (fc *fnCtx) specEnv(st *State, extra map[string]Val) *SpecEnv {
 			// ambiguous name: prefer the cell written in the loop being specified, else the earliest declaration
 			curIn := t.curLoop != nil && cellStoredIn(a, t.curLoop)
 			prevIn := t.curLoop != nil && fc.cellAlloc[a.Comment] != nil && cellStoredIn(fc.cellAlloc[a.Comment], t.curLoop)
+			if os.Getenv("GOWP_DEBUG") == "cells" && a.Comment == "rangeindex" {
+				lo := -1
+				if t.curLoop != nil {
+					lo = t.curLoop.ordinal
+				}
+				fmt.Fprintf(os.Stderr, "resolve rangeindex: loop %d cand %v val %q curIn=%v prevIn=%v prevPos=%v\n", lo, fc.eng.fset.Position(a.Pos()), v, curIn, prevIn, fc.eng.fset.Position(fc.cellPos[a.Comment]))
+			}
 			if prevIn && !curIn {
 				continue
 			}
@@ -1024,6 +1032,36 @@ func (e *SpecEnv) evalCall(n *ast.CallExpr) (Val, error) {
 			}
 			e.fc.eng.declMath("math." + strings.ToUpper(id.Name[:1]) + id.Name[1:])
 			return Val{T: app("math."+strings.ToUpper(id.Name[:1])+id.Name[1:], args...), Ty: types.Typ[types.Float64]}, nil
+		case "sum":
+			// sum(s, lo, hi): the mathematical sum of s[lo..hi) for a slice of numbers (0 when lo >= hi).
+			// An uninterpreted function of (element heap, slice, lo, hi) whose defining equations and
+			// extensionality are instantiated per occurrence when the script is built (sumtheory.go).
+			if len(n.Args) != 3 {
+				return Val{}, fmt.Errorf("sum(s, lo, hi)")
+			}
+			sv, err := e.withPol(0).eval(n.Args[0])
+			if err != nil {
+				return Val{}, err
+			}
+			st, ok := sv.Ty.Underlying().(*types.Slice)
+			if !ok || !(isInteger(st.Elem()) || isFloat(st.Elem())) {
+				return Val{}, fmt.Errorf("sum: not a slice of numbers")
+			}
+			lo, err := e.withPol(0).eval(n.Args[1])
+			if err != nil {
+				return Val{}, err
+			}
+			hi, err := e.withPol(0).eval(n.Args[2])
+			if err != nil {
+				return Val{}, err
+			}
+			lo, hi = e.coerce(lo, types.Typ[types.Int]), e.coerce(hi, types.Typ[types.Int])
+			srt := e.fc.S().SortOf(st.Elem())
+			hn, hs := e.fc.heapElemName(st.Elem())
+			h := e.fc.heapGet(e.st, hn, hs)
+			fname := "sum." + srt
+			e.fc.S().UFun(fname, []string{hs, "Slice", "Int", "Int"}, srt)
+			return Val{T: app(fname, h, sv.T, lo.T, hi.T), Ty: st.Elem()}, nil
 		case "haskey":
 			// haskey(m, k): k is a key of map m
 			if len(n.Args) != 2 {
@@ -1489,5 +1527,30 @@ func (e *SpecEnv) ifaceCall(sel *ast.SelectorExpr, argx []ast.Expr) (Val, bool, 
 		}
 		args = append(args, e.coerce(v, sig.Params().At(i).Type()))
 	}
-	return e.fc.ifaceApp(recv, m.Name(), args, sig.Results().At(0).Type()), true, nil
+	app := e.fc.ifaceApp(recv, m.Name(), args, sig.Results().At(0).Type())
+	// the assumed contract of the method also holds of this application (closed terms only:
+	// under a binder the application mentions bound variables and cannot be named globally)
+	if len(c.Ensures) > 0 && e.fc.defs.inline == 0 && !strings.Contains(app.T, "q.") && !e.inIfaceFacts {
+		name := e.fc.defs.Define("ifapp", e.fc.S().SortOf(app.Ty), app.T)
+		if name != app.T && e.fc.defs.byName[name] != nil && len(e.fc.defs.byName[name].axioms) == 0 {
+			env := &SpecEnv{fc: e.fc, st: e.st, vars: map[string]Val{"self": recv, "result": {T: name, Ty: app.Ty}}, bound: map[string]Val{}, pkg: e.pkg, lets: letsOf(c), inIfaceFacts: true}
+			if mp := m.Pkg(); mp != nil {
+				if sp := e.fc.eng.prog.Package(mp); sp != nil {
+					env.pkg = sp
+				}
+			}
+			for i, a := range args {
+				if n := sig.Params().At(i).Name(); n != "" {
+					env.vars[n] = a
+				}
+			}
+			for _, en := range c.Ensures {
+				if g, err := env.assumption(en.Expr); err == nil {
+					e.fc.defs.Axiom(name, g)
+				}
+			}
+		}
+		app.T = name
+	}
+	return app, true, nil
 }
